@@ -93,7 +93,7 @@ def run(tier, v):
     wd = vlib.workdir(PID)
     vlib.build_harness()
     K = set(vlib.known_devs(PID))
-    stride = 19 if tier == "thorough" else 151
+    stride = 61 if tier == "thorough" else 503
     vec = os.path.join(wd, "vectors.ndjson")
     meta = {}
     stat = {}
